@@ -67,6 +67,47 @@ def iso_first_load(args):
     return ('ok', bad)
 
 
+def iso_path_collision(args):
+    """runs in a process of its own: BEFORE any shipped table has been loaded, the loaders are handed paths of user files
+    whose stems collide with shipped table names but hold other arrays (on the pinned tree such a call just raises);
+    afterwards every loader called by NAME must still return the shipped arrays"""
+    import tempfile, shutil
+    import pytorch_wavelets.dtcwt.coeffs as coeffs
+    files = file_tables()
+    d = tempfile.mkdtemp(prefix='vp_tables_')
+    try:
+        swaps = {'near_sym_a': 'legall', 'antonini': 'near_sym_b', 'qshift_a': 'qshift_06', 'qshift_b': 'qshift_d'}
+        for tgt, src in swaps.items():
+            if tgt in files and src in files:
+                np.savez(os.path.join(d, tgt + '.npz'), **files[src])
+        for tgt in swaps:
+            for pth in (os.path.join(d, tgt + '.npz'), os.path.join(d, tgt)):
+                for fn in (coeffs.biort, coeffs.qshift, lambda n: coeffs.level1(n, compact=True), lambda n: coeffs.level1(n, compact=False)):
+                    try:
+                        fn(pth)
+                    except Exception:
+                        pass
+    finally:
+        shutil.rmtree(d, ignore_errors=True)
+    bad = []
+    for name, t in files.items():
+        calls = []
+        if all(k in t for k in L1_KEYS):
+            keys = L1_KEYS + (('h2o', 'g2o') if name == 'near_sym_b_bp' else ())
+            calls.append(('biort(%s)' % name, lambda n=name: coeffs.biort(n), keys))
+        if all(k in t for k in Q_KEYS):
+            keys = Q_KEYS + (('h2a', 'h2b', 'g2a', 'g2b') if name == 'qshift_b_bp' else ())
+            calls.append(('qshift(%s)' % name, lambda n=name: coeffs.qshift(n), keys))
+        for what, fn, keys in calls:
+            try:
+                a = fn()
+            except Exception as e:
+                bad.append('%s raises %s' % (what, type(e).__name__)); continue
+            if not (len(a) == len(keys) and all(np.asarray(x).shape == np.asarray(t[k]).shape and np.array_equal(x, t[k]) for x, k in zip(a, keys))):
+                bad.append(what)
+    return ('ok', bad)
+
+
 def ac(a, b, n):
     a = np.ravel(a); b = np.ravel(b)
     return float(sum(a[k] * b[k + 2 * n] for k in range(len(a) - 2 * n)))
@@ -159,6 +200,16 @@ def run(ck):
                 st.classes.add(('first-load', dt_))
         else:
             ck.notes.append('first-load history under %s not run: %s' % (dt_, str(res)[:100]))
+    res = rt.iso_run([{'module': 'harness.props.c18', 'func': 'iso_path_collision', 'args': {}}])[0]
+    st.evaluations += 1
+    if isinstance(res, tuple) and res and res[0] == 'ok':
+        if res[1]:
+            ck.fail('after the loaders were handed PATHS of user files whose stems equal shipped table names (fresh process, before any shipped table was loaded), %s no longer returns the '
+                    'arrays stored in the shipped file' % res[1][0], {'oracle': 'path-collision', 'calls': res[1][:6]})
+        else:
+            st.classes.add(('path-collision',))
+    else:
+        ck.notes.append('path-collision history not run: %s' % str(res)[:100])
     # numeric identities (the failing-input search for the Lean theorems) + reference comparison
     import dtcwt.coeffs as ref
     for name, t in files.items():
